@@ -191,6 +191,9 @@ def replay(inp):
         g = mk_grid(rows)
         got = [str(r['id']) for r in g.filter('siteRef->geoCity == "Chicago"')]
         return {'reproduced': got != ['@e1'], 'detail': 'rows whose id is a Ref: siteRef->geoCity selects %r' % (got,)}
+    if inp.get('kind') == 'history':
+        bad = history_cases()
+        return {'reproduced': bool(bad), 'detail': bad}
     if inp.get('kind') in ('header', 'rowloop'):
         bad = header_cases()
         if bad or inp.get('kind') == 'header':
@@ -214,6 +217,46 @@ def replay(inp):
     out = bounded('quick', 0)
     fl = [f for f in out['failures'] if not any(_re.search(p_, f.get('id', '')) for p_ in pats)]        # a listed finding is not a reproduction of something else
     return {'reproduced': bool(fl), 'detail': [f['what'] for f in fl[:3]]}
+
+
+def history_cases():
+    """the same rows reached through a history (replace, delete, swap, reverse, insert at the front) select the same rows as a freshly built grid"""
+    from hszinc import Grid, Ref, MARKER
+    def rows():
+        return [{'id': 's1', 'site': MARKER, 'geoCity': 'Chicago'}, {'id': 's2', 'site': MARKER, 'geoCity': 'Boston'},
+                {'id': 'e1', 'equip': MARKER, 'siteRef': Ref('s1')}, {'id': 'e2', 'equip': MARKER, 'siteRef': Ref('s2')}]
+    flts = ['siteRef->geoCity == "Chicago"', 'equip and siteRef->geoCity', 'not siteRef->geoCity', 'siteRef->site or site', 'siteRef->geoCity != "Boston"']
+
+    def fresh(rs):
+        g = Grid(version='3.0', columns={'id': {}, 'site': {}, 'equip': {}, 'geoCity': {}, 'siteRef': {}})
+        for r in rs:
+            g.append(r)
+        return g
+    bad = []
+    hist = {'reverse': lambda g: g.reverse(), 'swap': lambda g: g.__setitem__(0, g[1]) or g.__setitem__(1, dict(id='s1', site=MARKER, geoCity='Chicago')),
+            'pop-insert': lambda g: g.insert(0, g.pop(2)), 'replace-same-id': lambda g: g.__setitem__(1, {'id': 's2', 'site': MARKER, 'geoCity': 'Boston'}),
+            'delete-append': lambda g: (g.__delitem__(0), g.append({'id': 's1', 'site': MARKER, 'geoCity': 'Chicago'}))}
+    for hname, h in hist.items():
+        for warm in (True, False):
+            g = fresh(rows())
+            if warm:
+                g.filter('siteRef->site')       # builds the id index before the history
+            try:
+                h(g)
+            except Exception as e:
+                bad.append('history %s raised %r' % (hname, e))
+                continue
+            ref = fresh([dict(r) for r in g])
+            for f in flts:
+                try:
+                    a = [r['id'] for r in g.filter(f)]
+                    b = [r['id'] for r in ref.filter(f)]
+                except Exception as e:
+                    bad.append('after %s: filter(%r) raised %r' % (hname, f, e))
+                    continue
+                if a != b:
+                    bad.append('after %s (index %s before): filter(%r) selects %r, a freshly built grid with the same rows selects %r' % (hname, 'built' if warm else 'not built', f, a, b))
+    return bad[:3]
 
 
 def header_cases():
@@ -266,6 +309,9 @@ def bounded(tier, seed):
     for bad in header_cases():
         out['failures'].append({'id': 'C11/header', 'what': bad, 'input': {'kind': 'header'}})
     out['cases'] += 12
+    for bad in history_cases():
+        out['failures'].append({'id': 'C11/history', 'what': bad, 'input': {'kind': 'history'}})
+    out['cases'] += 50
     r = replay({'kind': 'ref_id_deref'})
     out['cases'] += 1
     if r['reproduced']:
